@@ -143,6 +143,22 @@ Theorem C13_skips_are_local :
 Proof. exact skips_are_local. Qed.
 Print Assumptions C13_skips_are_local.
 
+(* PARTIAL (database level only): every entry load_database returns is the
+   resolution of some entry of the database, with that entry's own -I values;
+   nothing else comes out.  Missing for the full "only files named by entries,
+   and what they include, are attributed": the include closure through the
+   finder (C04's model); that part is covered only by the differential run on
+   the oracle tree (attribution observed through finder.find). *)
+Theorem C13_only_named_files_partial :
+  forall fs cwd rootdir es o w x,
+    load_database fs cwd rootdir es = Ok (o, w) -> In x o ->
+    exists e f a, In e es /\ e_file e = Some f /\ e_argv e = Some a /\
+      o_file x = file_path cwd (filedir cwd rootdir (e_dir e)) f /\
+      exists incs, extract_incs (tl a) = Ok incs /\
+        o_incs x = map (inc_path cwd (filedir cwd rootdir (e_dir e))) incs.
+Proof. exact only_named_files. Qed.
+Print Assumptions C13_only_named_files_partial.
+
 (* ---- the whole database: M = S ---- *)
 (* For every well-formed tree, absolute working directory and database that S
    is defined on (every object has `file` and a command argparse accepts):
